@@ -31,7 +31,7 @@ func (p *Prog) d(v ssa.Value, depth int, seen map[ssa.Value]bool) string {
 	}
 	switch x := v.(type) {
 	case *ssa.Parameter:
-		return x.Name()
+		return p.paramName(x)
 	case *ssa.FreeVar:
 		return p.dFreeVar(x, depth, seen)
 	case *ssa.Const:
@@ -198,9 +198,40 @@ func shortType(t types.Type) string {
 
 func (p *Prog) allocName(a *ssa.Alloc) string {
 	if a.Comment != "" {
+		// a spilled parameter keeps its (baseline) parameter name
+		if fn := a.Parent(); fn != nil {
+			for _, prm := range fn.Params {
+				if prm.Name() == a.Comment {
+					return "var:" + p.paramName(prm)
+				}
+			}
+		}
 		return "var:" + a.Comment
 	}
 	return "var:" + a.Name()
+}
+
+// paramName renders a parameter under the name it had when the rule tables were written
+// (checker/baseline_names.json, by position): renaming a parameter or a receiver does not change
+// any descriptor; a changed parameter count falls back to the current names.
+func (p *Prog) paramName(x *ssa.Parameter) string {
+	fn := x.Parent()
+	if fn == nil || p.Names == nil {
+		return x.Name()
+	}
+	base, ok := p.Names[p.FuncKey(fn)]
+	if !ok || len(base) != len(fn.Params) {
+		return x.Name()
+	}
+	for i, prm := range fn.Params {
+		if prm == x {
+			if base[i] == "" || base[i] == "_" {
+				return x.Name()
+			}
+			return base[i]
+		}
+	}
+	return x.Name()
 }
 
 // derefName renders the thing a pointer value points to.
